@@ -4,6 +4,9 @@ pub mod families;
 pub mod infra;
 pub mod keys;
 pub mod prog;
+pub mod refdecode;
+pub mod refstream;
+pub mod sweep;
 pub mod scale;
 
 #[global_allocator]
